@@ -388,6 +388,16 @@ structure DtTotal (E : Ext) : Prop where
 
 /-! ## The pass -/
 
+/-- `SequenceConverter.try_convert`, given the element pass `f` (shared by `.seq kind c` and by the list
+member of `.vol c`) -/
+def seqTryWith (f : Val → Outcome Val) (kind : String) (v : Val) : Outcome Val :=
+  if !v.isSeq then .interrupt
+  else swallow (Facts.catches .seqTry)
+    ((mapMO f v.seqItems).bind fun xs =>
+      match seqCtor kind xs with
+      | .ok r => .ok r
+      | .error e => .leak e)
+
 mutual
 def tryC (E : Ext) : Conv → Val → Outcome Val
   | .any, v => .ok v
@@ -442,13 +452,7 @@ def tryC (E : Ext) : Conv → Val → Outcome Val
       | .ok kvs => (guardTry (Facts.catches .dictBuildTry) (buildDict kvs)).bind fun d => .ok (dictCtor kind d)
       | .interrupt => .interrupt
       | .leak e => .leak e
-  | .seq kind vc, v =>
-    if !v.isSeq then .interrupt
-    else swallow (Facts.catches .seqTry)
-      ((mapMO (tryC E vc) v.seqItems).bind fun xs =>
-        match seqCtor kind xs with
-        | .ok r => .ok r
-        | .error e => .leak e)
+  | .seq kind vc, v => seqTryWith (tryC E vc) kind v
   | .cond inner c _, v =>
     (tryC E inner v).bind fun x =>
       match guardTry (Facts.catches .condTry) (evalCond E Facts.stockCond c x) with
@@ -482,6 +486,16 @@ def tryC (E : Ext) : Conv → Val → Outcome Val
         | .ok a => .ok a
         | .error e => .leak e
   | .custom id, v => E.customTry id v
+  | .vol vc, v =>
+    -- the inherited union loop over `(conv(T), conv(List[T]))`; the constructor never raises
+    match tryC E vc v with
+    | .ok x => .ok (.wrap "ValueOrList:val" x)
+    | .leak e => .leak e
+    | .interrupt =>
+      match seqTryWith (tryC E vc) "list" v with
+      | .ok x => .ok (.wrap "ValueOrList:list" x)
+      | .interrupt => .interrupt
+      | .leak e => .leak e
 def tryCs (E : Ext) : List Conv → List (Val → Outcome Val)
   | [] => []
   | c :: cs => tryC E c :: tryCs E cs
